@@ -48,18 +48,18 @@ HasAttr(W, c, name) == \E a \in W.anc[c] : name \in W.attrs[a]
 (* Values.  t \in {"int","str","bool","none","tuple","list","dict","obj"}. *)
 (* ints carry v \in Int, strings a sequence of character codes, tuples and *)
 (* lists a sequence of [c, v] arguments, dicts two parallel sequences.     *)
-(* Equality is structural and never crosses value kinds (Appendix A: the   *)
-(* corpus keeps 1 / True / 1.0 in separate literals).                      *)
+(* Equality is structural; bool and int compare numerically (True == 1),   *)
+(* floats in the corpus are never integral.                                *)
 (***************************************************************************)
 RECURSIVE ValEq(_, _)
 ValEq(a, b) ==
-  /\ a.t = b.t
-  /\ CASE a.t \in {"int", "bool", "str", "obj", "float"} -> a.v = b.v
-       [] a.t = "none" -> TRUE
-       [] a.t \in {"tuple", "list"} ->
-            /\ Len(a.v) = Len(b.v)
-            /\ \A j \in DOMAIN a.v : ValEq(a.v[j].v, b.v[j].v)
-       [] OTHER -> FALSE
+  IF a.t \in {"int", "bool"} /\ b.t \in {"int", "bool"} THEN a.v = b.v   \* True == 1 in Python
+  ELSE /\ a.t = b.t
+       /\ CASE a.t \in {"str", "obj", "float", "none"} -> a.v = b.v
+            [] a.t \in {"tuple", "list"} ->
+                 /\ Len(a.v) = Len(b.v)
+                 /\ \A j \in DOMAIN a.v : ValEq(a.v[j].v, b.v[j].v)
+            [] OTHER -> FALSE
 
 IsPrefixSeq(p, s) == Len(p) <= Len(s) /\ \A j \in DOMAIN p : s[j] = p[j]
 IsSuffixSeq(p, s) == Len(p) <= Len(s) /\
@@ -81,8 +81,21 @@ Sat(W, t, c) ==
     [] OTHER             -> FALSE
 
 (***************************************************************************)
-(* Holds: value-level meaning.  Static kinds look at the class only.       *)
+(* Holds: value-level meaning (C01, C10, C11).  Static kinds look at the   *)
+(* class only.  An argument is [c, name, v] with v a value term:           *)
+(*   [t |-> "int"|"bool"|"obj", v |-> n]   [t |-> "str", v |-> Seq(code)]  *)
+(*   [t |-> "none"]   [t |-> "tuple"|"list", v |-> Seq(argument)]          *)
+(*   [t |-> "dict", ks |-> Seq(value term), vs |-> Seq(argument)]          *)
+(* lit        : equal to one of the values                                 *)
+(* dep        : instance of the bound and the user condition holds (the    *)
+(*              condition is given extensionally: names of the values)     *)
+(* prod       : a tuple of that length whose elements hold element-wise    *)
+(* seqof / collof : shallow - bound, and the first element (if any) holds  *)
+(* mapof      : shallow - bound, first key and its value hold              *)
+(* startswith / endswith / haskey : as named, bound str / str / Mapping    *)
 (***************************************************************************)
+FirstChar(a) == [c |-> a.c, name |-> "", v |-> [t |-> "str", v |-> <<a.v.v[1]>>]]
+
 RECURSIVE Holds(_, _, _)
 Holds(W, t, a) ==
   CASE t.k \in {"cls", "any", "exactly", "strict", "hasmethod", "check"} ->
@@ -91,14 +104,20 @@ Holds(W, t, a) ==
     [] t.k = "inter"  -> \A j \in DOMAIN t.args : Holds(W, t.args[j], a)
     [] t.k = "lit"    -> \E j \in DOMAIN t.vals : ValEq(t.vals[j], a.v)
     [] t.k = "dep"    -> Sat(W, t.bound, a.c) /\ a.name \in Range(t.holds)
-    [] t.k = "prod"   -> /\ a.v.t = "tuple"
+    [] t.k = "prod"   -> /\ Sat(W, t.bound, a.c) /\ a.v.t = "tuple"
                          /\ Len(a.v.v) = Len(t.args)
                          /\ \A j \in DOMAIN t.args : Holds(W, t.args[j], a.v.v[j])
-    [] t.k = "seqof"  -> /\ a.v.t \in {"tuple", "list", "str"}
-                         /\ (a.v.t # "str" /\ Len(a.v.v) > 0) => Holds(W, t.arg, a.v.v[1])
-                         /\ (a.v.t = "str" /\ Len(a.v.v) > 0) => Sat(W, t.arg, t.strcls)
-    [] t.k = "startswith" -> a.v.t = "str" /\ IsPrefixSeq(t.p, a.v.v)
-    [] t.k = "endswith"   -> a.v.t = "str" /\ IsSuffixSeq(t.p, a.v.v)
+    [] t.k \in {"seqof", "collof"} ->
+                         /\ Sat(W, t.bound, a.c)
+                         /\ IF a.v.t = "str" THEN (Len(a.v.v) > 0 => Holds(W, t.arg, FirstChar(a)))
+                            ELSE IF a.v.t = "dict" THEN (Len(a.v.ks) > 0 => Holds(W, t.arg, a.v.karg[1]))
+                            ELSE (Len(a.v.v) > 0 => Holds(W, t.arg, a.v.v[1]))
+    [] t.k = "mapof"  -> /\ Sat(W, t.bound, a.c) /\ a.v.t = "dict"
+                         /\ (Len(a.v.ks) > 0 => (Holds(W, t.kt, a.v.karg[1]) /\ Holds(W, t.vt, a.v.vs[1])))
+    [] t.k = "startswith" -> Sat(W, t.bound, a.c) /\ a.v.t = "str" /\ IsPrefixSeq(t.p, a.v.v)
+    [] t.k = "endswith"   -> Sat(W, t.bound, a.c) /\ a.v.t = "str" /\ IsSuffixSeq(t.p, a.v.v)
+    [] t.k = "haskey"     -> /\ Sat(W, t.bound, a.c) /\ a.v.t = "dict"
+                             /\ \A q \in DOMAIN t.keys : \E j \in DOMAIN a.v.ks : ValEq(t.keys[q], a.v.ks[j])
     [] OTHER -> FALSE
 
 (***************************************************************************)
@@ -122,8 +141,21 @@ SubElem(banc, x, y) ==
   ELSE FALSE
 
 (***************************************************************************)
-(* Declared order between *class* terms, as the statement of C02 uses it.  *)
+(* Declared order between annotation terms, as the statements use it.      *)
+(* Classes: same-or-subclass (C02).  Value-dependent types (C10 and        *)
+(* docs/dependent.md): a dependent type is more specific than every static *)
+(* type comparable with its bound; two dependent types compare like their  *)
+(* bounds; with equal bounds they are unordered (unless identical).        *)
 (***************************************************************************)
 SameOrSubCls(W, ta, tb) == ta.k = "cls" /\ tb.k = "cls" /\ IsSub(W, ta.c, tb.c)
 
+IsDepT(t) == t.k \in {"dep", "lit", "prod", "seqof", "collof", "mapof", "startswith", "endswith", "haskey"}
+TypeLE(W, ta, tb) ==
+  IF ta.k = "cls" /\ tb.k = "cls" THEN IsSub(W, ta.c, tb.c)
+  ELSE IF IsDepT(ta) /\ tb.k = "cls" THEN
+       ta.bound.k = "cls" /\ (IsSub(W, tb.c, ta.bound.c) \/ IsSub(W, ta.bound.c, tb.c))
+  ELSE IF IsDepT(ta) /\ IsDepT(tb) THEN
+       \/ ta = tb
+       \/ ta.bound.k = "cls" /\ tb.bound.k = "cls" /\ ta.bound.c # tb.bound.c /\ IsSub(W, ta.bound.c, tb.bound.c)
+  ELSE ta = tb
 =============================================================================
